@@ -1,9 +1,9 @@
 SPECIFICATION Spec
 CONSTANTS
-  StepRecovery = FALSE
+  StepRecovery = TRUE
   RCrashes = 0
   Order <- Two
   MarkersFirst = TRUE
 INVARIANTS CountInBounds ClosedClean RecoveredClean
-PROPERTY Closes
+PROPERTY Closes RecoveryEnds
 CHECK_DEADLOCK FALSE
